@@ -317,7 +317,9 @@ static std::vector<Spec> build() {
     s.gen = [](Draw &d, PV &p, bool sweep) { for (auto &kv : p) { long double f = d.U(0.8L, 1.2L); long double g = sweepf(d, sweep, 0.3);
         const std::string &n = kv.first; if (n == "mu" || n == "p_0" || n == "T_inf" || n == "R") f *= powl(g, 1.0L / 3);   // scale-type parameters: up to 10^+-1
         kv.second *= f; }
-      if (p.count("Gamma")) p["Gamma"] = d.U(1.2L, 1.7L); if (p.count("M_inf")) p["M_inf"] = d.U(0.3L, 1.5L); };
+      if (p.count("Gamma")) p["Gamma"] = d.U(1.2L, 1.7L); if (p.count("M_inf")) p["M_inf"] = d.U(0.3L, 1.5L);
+      // the wall-normal velocity may point either way (eta_v of either sign), and the nu_sa profile may bend either way as long as nu_sa > 0 in the sampled layer
+      if (p.count("eta_v") && d.coin(0.4)) p["eta_v"] = -p["eta_v"]; if (p.count("alpha") && d.coin(0.3)) p["alpha"] = -p["alpha"] * d.U(0.1L, 1.0L); };
     s.genpt = [](Draw &d, long double *pt, const PV &) { pt[0] = d.U(0.3L, 3.0L); pt[1] = d.logU(1e-3L, 0.2L); };
     auto skip = [](const PM &p, const Q *x) { WallBounded::Aux a; WallBounded::ref(p, x, 4, 0, &a); __float128 sw = a.Sbar.v + a.cv2.v * a.Om.v; return fabsq(sw) < 1e-6Q * (fabsq(a.Sbar.v) + fabsq(a.cv2.v * a.Om.v)); };
     s.evals.push_back(EV("exact_rho", 1, masa_eval_exact_rho, A2, return WallBounded::field(p, x, 0);));
